@@ -21,6 +21,7 @@ func TestVerifC16All(t *testing.T) {
 		Reg  []regCase  `json:"reg"`
 		Mat  []matCase  `json:"mat"`
 		Win  []winCase  `json:"win"`
+		Hbb  []int      `json:"hbb"`
 	}
 	if err := json.Unmarshal(raw, &in); err != nil {
 		t.Fatal(err)
@@ -67,6 +68,9 @@ func TestVerifC16All(t *testing.T) {
 			r[i] = runWinCase(c)
 		}
 		out["win"] = r
+	}
+	if in.Hbb != nil {
+		out["hbb"] = []hbbRes{runHbBypass(20, 150)}
 	}
 	vwriteOut(t, out)
 }
